@@ -240,6 +240,31 @@ func runShape(c *mc.Ctx, sh shape, br *o4h.Bridge, seed int64, quick bool) {
 				realErr = err
 				return
 			}
+			if sh.phase == "later-connection" {
+				// the connection under test is not the first one of this running
+				// bridge: an earlier client connected, received data and was closed
+				pcw, psw := wire.Pipe("client-prior", "server-prior")
+				priorRnd := rnd.New(seed, "c09-ref-prior-"+sh.name())
+				s.Spawn("ref-client-prior", func() {
+					prs, _, err := o4h.RefClient(pcw, br.ID.Pub[:], br.ID.NodeID[:], o4h.ClientOpts{PadLen: 120}, priorRnd)
+					if err != nil {
+						pcw.Close()
+						return
+					}
+					for {
+						if _, err := prs.RecvOnce(); err != nil {
+							break
+						}
+					}
+				})
+				pconn, err := sf.WrapConn(psw)
+				if err != nil {
+					realErr = fmt.Errorf("earlier connection: %v", err)
+					return
+				}
+				pconn.Write(o4h.Pattern('P', 0, 3000))
+				pconn.Close()
+			}
 			s.Spawn("ref-client", func() {
 				rs, _, refErr = o4h.RefClient(cw, br.ID.Pub[:], br.ID.NodeID[:], o4h.ClientOpts{PadLen: 100}, refRnd)
 				if refErr != nil {
@@ -721,7 +746,7 @@ func main() {
 							if role == "client" {
 								phases = []string{"before-seed", "after-seed"}
 							} else if size == 1428 || size == 20 {
-								phases = []string{"", "peer-sent-seed"}
+								phases = []string{"", "peer-sent-seed", "later-connection"}
 							}
 							for _, ph := range phases {
 								sh := shape{role, b.no, iat, bias, size, ph}
